@@ -429,14 +429,20 @@ pub fn run_fault_case<H: HK>(case: &FaultCase, fp: &FaultParams, scratch: &Scrat
         let cp = shadow.clone();
         let pre = r.model.clone();
         let last = &hist.steps[n - 1];
-        // in half of the cases one page write of the operation under test (the k-th to ln or bbn) is acknowledged late
+        // in half of the cases one page write of the operation under test (the k-th to ln, bbn, wal or a rollback segment) is acknowledged late
         // (held back a few ms inside the hook before it is issued): a sync that does not wait for every completion
         // before it fsyncs then leaves that write outside the fsync's coverage
         let mut hs = SplitMix(case.choice_seed ^ 0x401d);
-        let held = hs.below(2) == 0;
+        // (also the WAL blob write and a rollback segment write: a sync that lets the switch-over overtake them)
+        let held = hs.below(5) < 3;
         if held {
-            let class = if hs.below(3) == 0 { "bbn" } else { "ln" };
-            rec.set_hold_nth(Some((class, 4_000 + hs.below(8_000))), hs.below(6) as usize);
+            let (class, nth) = match hs.below(10) {
+                0..=3 => ("ln", hs.below(6) as usize),
+                4..=5 => ("bbn", hs.below(6) as usize),
+                6..=8 => ("wal", hs.below(2) as usize),
+                _ => ("rollback", 0),
+            };
+            rec.set_hold_nth(Some((class, 4_000 + hs.below(8_000))), nth);
         }
         let outcome = r.step(n - 1, last);
         rec.set_hold(None);
